@@ -378,7 +378,7 @@ def _worker(task):
 
 def run(ctx: Ctx) -> Report:
     total = Report(prop=ID, level="exploration", rule=RULE)
-    n_total = 480 if ctx.quick else 16000
+    n_total = 4800 if ctx.quick else 16000
     shards = 16
     for rep in pool_map(_worker, [(ctx.subseed("shard", i), n_total // shards) for i in range(shards)]):
         total.merge(rep)
